@@ -66,13 +66,28 @@ def gen(rng, tier):
                     out.append(Case("fuse", ty, rng.choice(FAMS), rng.choice(["own", "ref"]), [n, opk, 0],
                                     flat_op(vac) + flat_op(w1), tag=tag, meta={"law": "neutral", "which": 1}))
             # folds in any order (ACm, shared base rate, non-dogmatic)
-            for i in range(nrand // 2):
+            for i in range(nrand // 2 + nrand // 4):
                 k = 2 + rng.below(5)
                 den = rng.choice([8, 16, 64])
                 a = G.grid_dist(rng, n, den)
                 ws = []
+                confident = i >= nrand // 2
+                if confident:
+                    k = 3 + rng.below(2)
                 for _ in range(k):
-                    if i % 3 == 2:
+                    if confident:
+                        # very confident, not dogmatic: u a few ulps of 1 wide.  The uncertainty of an intermediate
+                        # result is its weight in the next fusion, so its relative accuracy matters
+                        # (exactly well-formed dyadic operands: a defect of well-formedness of 1 ulp would be a
+                        # sizeable fraction of u and the laws do not hold for such operands)
+                        e = (rng.choice([45, 47, 49, 50, 51]) if ty == "f64" else rng.choice([16, 18, 20, 21, 22]))
+                        uu = (1 + rng.below(15)) * 2.0 ** -e
+                        kk = G.composition(rng, 8, n)
+                        bb = [x / 8.0 for x in kk]
+                        j = rng.choice([t for t in range(n) if kk[t] > 0])
+                        bb[j] -= uu
+                        s = (bb, uu)
+                    elif i % 3 == 2:
                         s = G.float_simplex(rng, ty, n, u=0.05 + 0.9 * rng.unit())
                     else:
                         s = G.grid_simplex(rng, n, den, "part")
@@ -86,7 +101,7 @@ def gen(rng, tier):
                     nums = sum((flat_op(w) for w in ws), [])
                     mnums = sum((flat_op(ws[j]) for j in lo), [])
                     c = Case("ftree", ty, rng.choice(FAMS), rng.choice(["own", "ref", "assign"]),
-                             [n, 0, k] + toks, nums, mop="fold", mdims=[n, 0, k], tag="fold_order",
+                             [n, 0, k] + toks, nums, mop="fold", mdims=[n, 0, k], tag="fold_confident" if confident else "fold_order",
                              meta={"g": gid, "law": "fold"})
                     c.meta["model_nums"] = mnums
                     out.append(c)
